@@ -5,7 +5,7 @@ use super::CssData;
 use super::cssdest::{AtRootDest, CssDestination, is_keyframes};
 use crate::css::{self, AtRule, Import, SelectorCtx};
 use crate::error::ResultPos;
-use crate::input::{Context, Loader, Parsed, SourceKind};
+use crate::input::{Context, Loader, Parsed, SourceKind, SourcePos};
 use crate::sass::{Expose, Item, ItemBody, UseAs, get_global_module};
 use crate::{Error, Invalid, ScopeRef};
 
@@ -99,7 +99,7 @@ fn handle_item(
                                 value.do_evaluate(scope.clone(), true)
                             })?;
                             if module.get_or_none(name).is_none() {
-                                module.define(name.clone(), value)?;
+                                module.configure(name.clone(), value)?;
                             } else {
                                 return Err(Error::S(
                                     "The same variable may only be configured once.".to_string(),
@@ -112,6 +112,7 @@ fn handle_item(
                             module.clone(),
                             file_context,
                         )?;
+                        check_config(&module, pos)?;
                         Ok(module)
                     })?;
                 file_context.unlock_loading(&sourcefile);
@@ -149,7 +150,7 @@ fn handle_item(
                                 value.do_evaluate(scope.clone(), true)
                             })?;
                             if module.get_or_none(name).is_none() {
-                                module.define(name.clone(), value)?;
+                                module.configure(name.clone(), value)?;
                             } else {
                                 return Err(Error::S(
                                     "The same variable may only be configured once.".to_string(),
@@ -162,6 +163,7 @@ fn handle_item(
                             module.clone(),
                             file_context,
                         )?;
+                        check_config(&module, pos)?;
                         Ok(module)
                     });
                 file_context.unlock_loading(&sourcefile);
@@ -431,6 +433,23 @@ fn handle_item(
             }
         }
         Item::None => (),
+    }
+    Ok(())
+}
+
+/// Check that a module has declared all the variables that it was
+/// configured with.
+fn check_config(module: &ScopeRef, pos: &SourcePos) -> Result<(), Error> {
+    // TODO: A module that forwards other modules passes its configuration
+    // on to them, which is not checked here.
+    if module.opt_forward().is_none() && module.unused_config().is_some() {
+        return Err(Error::BadCall(
+            "This variable was not declared with !default in the @used \
+             module."
+                .into(),
+            pos.clone(),
+            None,
+        ));
     }
     Ok(())
 }
